@@ -174,10 +174,15 @@ impl Diagnostics {
         }
 
         // Helper function that checks whether a lint is allowed by attributes on the provided entity.
+        // Attributes are only parsed if no errors were reported up to that point, but lints are reported before that
+        // (for doc comments, while parsing); so an `allow` attribute that is still unparsed counts just the same.
         fn is_lint_allowed_by_attributes(attributable: &(impl Attributable + ?Sized), lint: &Lint) -> bool {
             let attributes = attributable.all_attributes().into_iter();
-            let mut allowed = attributes.filter_map(|a| a.downcast::<attributes::Allow>());
-            allowed.any(|allow| is_lint_allowed_by(allow.allowed_lints.iter(), lint))
+            let mut allowed = attributes.filter_map(|a| match a.downcast::<attributes::Unparsed>() {
+                Some(unparsed) if unparsed.directive == "allow" => Some(&unparsed.args),
+                _ => a.downcast::<attributes::Allow>().map(|allow| &allow.allowed_lints),
+            });
+            allowed.any(|allowed_lints| is_lint_allowed_by(allowed_lints.iter(), lint))
         }
 
         for diagnostic in &mut self.0 {
